@@ -10,8 +10,10 @@ def run(R, ctx):
     rule = R.rule
     servesuite.run_serve_suite(R, ctx, "select-reconnect", (120, 2500),
                                "The same SELECT-heavy sessions with protocol damage and client closes, every ended connection being replaced by a new "
-                               "one: selection must start at database 0 on every new connection and stay private to it.",
-                               pubsub=False, damage=True, reconnect=True)
+                               "one: selection must start at database 0 on every new connection and stay private to it. "
+                               "Parallel sessions: 4-10 connections re-select their own database before every command and work on the same key names at the "
+                               "same moment; every reply and the final contents of every database are those of the connection's own selection.",
+                               pubsub=False, damage=True, reconnect=True, parallel_select=8)
     R.rule = rule + " || " + R.rule
 
 
